@@ -838,6 +838,8 @@ func (e *SpecEnv) evalCall(x *ECall) SV {
 					return SV{t: app("select", cur, pv.t), typ: mathInt}
 				}
 				return SV{t: app("select", cur, pv.t), typ: types.NewArray(types.Typ[types.Uint8], 0)}
+			case "initguard":
+				return e.extInitGuard() // ext_induct.go: the init$guard flag of the contract's package
 			case "ghostvar":
 				// ghostvar(NAME): current value of an auxiliary integer variable declared with `ghost NAME = INIT`
 				id, ok := x.Args[0].(*EIdent)
